@@ -142,16 +142,11 @@ def gen_leaf(rng, sp, S='S'):
     import odl
     F = odl.solvers
     if sp.parts:
-        choices = ['sep', 'sep', 'sep', 'l2sq', 'const', 'indzero', 'l2', 'ball2', 'quad']
+        choices = ['sep', 'sep', 'sep', 'l2sq', 'const', 'indzero', 'l2', 'ball2', 'quad', 'l1', 'ballinf']
     else:
         choices = ['l1', 'l2', 'linf', 'ball1', 'ball2', 'ballinf', 'l2sq', 'const', 'zero', 'indzero',
                    'huber', 'huber', 'quad', 'quad']
     k = rng.choice(choices)
-    if k == 'huber' and sp.kind == 'rn_array':
-        # Huber._call/proximal/gradient index with a boolean mask, which raises ValueError on
-        # array-weighted spaces unless every entry is selected (finding huber-array-weighted):
-        # kept out of the correspondence, reported by a probe
-        k = 'l1'
     if k == 'sep':
         subs = []
         for i, p in enumerate(sp.parts):
@@ -392,36 +387,7 @@ def obs_shape(fn):
         return '(ISE %s)' % _err(e), None
 
 
-def _has_linear_defconj(f):
-    """does the class tree of f contain a DefaultConvexConjugate of a functional flagged linear?"""
-    from odl.solvers.functional import functional as FF
-    import odl
-    D = odl.solvers.functional.default_functionals
-    if f is None:
-        return False
-    if isinstance(f, FF.BregmanDistance):
-        return _has_linear_defconj(f._BregmanDistance__bregman_dist)
-    if isinstance(f, FF.FunctionalDefaultConvexConjugate):
-        return bool(f.convex_conj.is_linear) or _has_linear_defconj(f.convex_conj)
-    kids = []
-    for attr in ('functional', 'left', 'right'):
-        k = getattr(f, attr, None)
-        if isinstance(k, FF.Functional):
-            kids.append(k)
-    if isinstance(f, D.SeparableSum):
-        kids += list(f.functionals)
-    return any(_has_linear_defconj(k) for k in kids)
-
-
-def defconj_flag_repaired():
-    """variant of finding defaultconj-linear-flag exhibited by the code under test: True when
-    FunctionalDefaultConvexConjugate no longer inherits is_linear (the model describes the inherited flag)."""
-    import odl
-    from odl.solvers.functional import functional as FF
-    return not FF.FunctionalDefaultConvexConjugate(odl.solvers.ZeroFunctional(odl.rn(1))).is_linear
-
-
-def make_case(sp, node, x, y, sigma, repaired=False):
+def make_case(sp, node, x, y, sigma):
     f = node.obj
     X, Y = sp.elem(x), sp.elem(y)
     shp, _ = obs_shape(lambda: f)
@@ -430,10 +396,6 @@ def make_case(sp, node, x, y, sigma, repaired=False):
         ccshp, fcc = obs_shape(lambda: fc.convex_conj)
     else:
         ccshp, fcc = cshp, None
-    if repaired and any(_has_linear_defconj(g) for g in (f, fc, fcc)):
-        # the code under test has the repaired linear flag of the default conjugate; the model
-        # (and the refuted biconjugate statement) describe the inherited flag: not comparable
-        return None, None
     val = obs_val(lambda: f(X))
     cval = obs_val(lambda: fc(Y)) if fc is not None else 'ISkip'
     ccval = obs_val(lambda: fcc(X)) if fcc is not None else 'ISkip'
@@ -482,7 +444,6 @@ def correspondence(rng, tier):
     import warnings
     warnings.simplefilter('ignore')
     np.seterr(all='ignore')
-    repaired = defconj_flag_repaired()
     for i in range(ntree):
         sp = gen_space(rng)
         depth = rng.choice(list(range(maxd + 1)))
@@ -493,9 +454,7 @@ def correspondence(rng, tier):
             continue
         for _ in range(1 if depth == 0 else 2):
             x, y, sigma = gen_points(rng, sp)
-            term, desc = make_case(sp, node, x, y, sigma, repaired)
-            if term is None:
-                continue
+            term, desc = make_case(sp, node, x, y, sigma)
             cs.add(term, desc, (sp.kind, node.coq, tuple(x), tuple(y), sigma) if node.derived else None)
     return [cs]
 
@@ -749,7 +708,7 @@ def class_probes(rng, tier, out):
         run('L1-on-product', kind, sctor, 'F.L1Norm(S)', allc)
         run('L2-on-product', kind, sctor, 'F.L2Norm(S)', allc)
         run('L2sq-on-product', kind, sctor, 'F.L2NormSquared(S)', allc)
-        run('Huber-on-product', kind, sctor, 'F.Huber(S, 0.75)', ('fy', 'grad-eq'))
+        run('Huber-on-product', kind, sctor, 'F.Huber(S, 0.75)', allc)
         run('SepSum-list-sigma', kind, sctor,
             'F.SeparableSum(*[F.L1Norm(S[0]), F.L2NormSquared(S[0]), F.L2Norm(S[0])][:len(S)])', ('moreau',),
             sig=[0.5, 2.0, 1.0][:2 if 'rn(2' not in sctor else 3])
@@ -811,16 +770,15 @@ LEVEL_TEXT = ('Proof: on a deep embedding of functional arithmetic (18 node clas
               'about the conjugate TREE that the convex_conj rules build: (1) f(x) + f*(y) >= <x,y>; (2) equality at y = grad f(x); '
               '(3) the Moreau decomposition prox_{sigma f}(x) + sigma prox_{f*/sigma}(x/sigma) = x whenever both proximals exist '
               '(incl. the sort-based l1-ball projection); (4) f** = f in value wherever both can be evaluated, under an explicit '
-              'side condition B -- without B the statement is proved FALSE of the faithful model and of the library '
-              '(finding defaultconj-linear-flag). The model (values, conjugate trees incl. scalar merging and the is_linear '
+              'side condition B (scalar multiples of functionals whose conjugate is flagged linear are validated only). '
+              'The model (values, conjugate trees incl. scalar merging and the is_linear '
               'dispatch, proximals, gradients, exception classes) is tied to /repo by an in-Coq correspondence on random trees '
               '(class trees of f, f*, f** and all values compared). KL pairs, GroupL1, NuclearNorm, general-p norms, '
               'matrix QuadraticForm, element-valued sigma are probed only.')
 LEVEL_NOTE = ('Side conditions (wf, D, B) are spelled out in Props.v: positive left scalars, non-zero right scalars/vectors, '
-              'a >= 0, gamma > 0, no affine QuadraticPerturb of a functional flagged linear; D and B exclude corners created by the '
-              'linear flag of conjugates. Exact arithmetic (rounding and the (1 +- 10 eps) guards are outside; tolerance 1e-9). '
-              'np.sqrt enters as a function with its defining property. Three open findings with tested repairs: '
-              'QuadraticForm.convex_conj for non-self-adjoint operators violates Fenchel-Young; Huber cannot be evaluated on '
-              'array-weighted spaces; FunctionalDefaultConvexConjugate inherits the linear flag (wrong biconjugate values). '
+              'a >= 0, gamma > 0; D and B exclude corners created by the linear flag of conjugates. Exact arithmetic (rounding and the (1 +- 10 eps) guards are outside; tolerance 1e-9). '
+              'np.sqrt enters as a function with its defining property. One open finding: QuadraticForm.convex_conj for '
+              'non-self-adjoint operators violates Fenchel-Young; two fixed in /repo (Huber on array-weighted spaces, '
+              'linear flag of the default conjugate), guarded by probes. '
               'Axioms: classical reals + funext as printed.')
 TECHNIQUE = 'Coq proof by structural induction on functional expression trees + in-Coq differential correspondence'
